@@ -6,6 +6,7 @@ import (
 	"net/url"
 	"time"
 
+	"github.com/buildbuildio/pebbles/common/verifhook"
 	"github.com/buildbuildio/pebbles/requests"
 	"github.com/gobwas/ws"
 	"github.com/gobwas/ws/wsutil"
@@ -46,20 +47,26 @@ func (q *MultiOpQueryer) Subscribe(req *requests.Request, closeCh <-chan struct{
 	defer close(errCh)
 
 	go func() {
+		defer verifhook.At("Cq.done", resCh)
 		defer func() {
 			recover()
 		}()
+		verifhook.At("Cq.recvQ", resCh)
 		<-closeCh
+		verifhook.At("Cq.upClose", resCh)
 		conn.Close()
 	}()
 
 	go func() {
+		defer verifhook.At("Rq.done", resCh)
 		defer func() {
 			defer func() {
 				recover()
 			}()
+			verifhook.At("Rq.upClose", resCh)
 			conn.Close()
 			// indicate that it's done
+			verifhook.At("Rq.sendNil", resCh)
 			resCh <- nil
 		}()
 
@@ -96,6 +103,7 @@ func (q *MultiOpQueryer) Subscribe(req *requests.Request, closeCh <-chan struct{
 		errCh <- nil
 
 		for {
+			verifhook.At("Rq.upRead", resCh)
 			msg, err := wsutil.ReadServerText(conn)
 			if err != nil {
 				return
@@ -108,6 +116,7 @@ func (q *MultiOpQueryer) Subscribe(req *requests.Request, closeCh <-chan struct{
 				if innerErr := json.Unmarshal(msg, &serverErrorResp); innerErr != nil {
 					return
 				}
+				verifhook.At("Rq.sendR", resCh)
 				resCh <- &requests.Response{
 					Errors: serverErrorResp.Payload,
 				}
@@ -121,6 +130,7 @@ func (q *MultiOpQueryer) Subscribe(req *requests.Request, closeCh <-chan struct{
 				requests.SubError:
 				return
 			case requests.SubData:
+				verifhook.At("Rq.sendR", resCh)
 				resCh <- serverResp.Payload
 			}
 		}
